@@ -85,6 +85,12 @@ def pool():
     add('T-call', data, lambda: T['a']['d'].upper())
     add('T-arith', nums, lambda: T[0] * 2 + T[1])
     add('T-fail', data, lambda: T['a'].nope)
+    # arithmetic whose LEFT operand is a mutable container owned by the target / the caller's scope (an in-place operator would show)
+    add('T-arith-list', data, lambda: {'cat': T['a']['b'] + [9], 'rep': T['o'].lst * 2, 'again': T['a']['b'] + T['o'].lst})
+    add('T-arith-set', lambda: {'s': {1, 2}, 't': {2, 3}, 'd': {'p': 1}},
+        lambda: {'u': T['s'] | T['t'], 'i': T['s'] & {2}, 'm': T['s'] - {1}, 'x': T['s'] ^ {9}, 'dd': T['d'] | {'q': 2}})
+    add('S-arith-list', data, lambda: (S.extlist + [3], T * 2))
+    add('T-arith-nested', data, lambda: ('e', [T['v'] + 'x'], T + ['tail'], T * 2))
     add('dict', data, lambda: {'x': 'a.d', 'y': ('e', [T['k']]), 'z': Val(3)})
     add('odict', data, lambda: OrderedDict([('q', 'o.p.q'), ('l', ('o.lst', [_double]))]))
     add('list', data, lambda: ('e', [{'kk': 'k', 'vv': T['v'].upper()}]))
@@ -179,14 +185,15 @@ def outcome_signature(o):
     return json.loads(json.dumps(['error', cls, text]))
 
 
-SCOPE = {'ext': 'external-value'}
+def mk_scope():
+    return {'ext': 'external-value', 'extlist': [1, 2]}
 
 
 def run_pair(idx, P, spec=None, via=None):
     name, mk_t, mk_s = P[idx]
     target = mk_t()
     spec = mk_s() if spec is None else spec
-    scope = dict(SCOPE)
+    scope = mk_scope()
     fn = via or glom_pkg.glom
     return target, spec, scope, call(fn, target, spec, scope=scope)
 
@@ -315,7 +322,7 @@ def history(col, rng, P, baselines, length, contract):
             name, mk_t, mk_s = P[idx]
             target = mk_t()
             spec = mk_s() if spec is None else spec
-            scope = dict(SCOPE)
+            scope = mk_scope()
             snaps = (snapshot(target), snapshot(spec), snapshot(scope))
             if via is None:
                 o = call(glom_pkg.glom, target, spec, scope=scope)
